@@ -219,6 +219,7 @@ func VerifDecoded() {
 		// chrome/extensions emits its package without any location (known finding, a clause of C14)
 		verifrt.TagIf(name == "chromeextensions", "C14-chrome-extension-package-without-location")
 		verifrt.Assert(len(p.Locations) > 0, "an emitted package has at least one location")
+		verifrt.Assert(p.Name != "", "an emitted package has a non-empty name")
 		p.Extractor = e
 	}
 	// the PURL conversion runs on the first package only: several conversions in a row multiply
